@@ -56,6 +56,12 @@ CHECKS = {
         note="Soft 10 s watchdog, hang only if a fresh interpreter also exceeds 50 s. RecursionError counts only below 300 tokens under the raised limit. libFuzzer campaigns are only approximately reproducible; the saved input is the reproducible unit.",
         ref="DESIGN.md §4 C03",
     ),
+    "C04": dict(
+        technique="property-based testing with a validity predicate: accepted sources from all generators (Python, xonsh models, constructs placed at every expression/target hole) are validated structurally against the ASDL signatures read from ast class docstrings, spans and expression contexts are checked, and compile() is used differentially against compile(ast.unparse(tree))",
+        text="Exploration: every tree returned for a generated input must be structurally valid for compile() in its mode; compile() may only reject it (SyntaxError) if the written-out Python is rejected too. Held on everything generated.",
+        note="The structural validator is mine (independent of the parser); contexts are computed top-down from parent fields. Inputs the parser rejects are outside C04.",
+        ref="DESIGN.md §4 C04",
+    ),
     "C05": dict(
         technique="metamorphic/differential property-based testing: a generated xonsh construct is inserted at a Load-position hole of a generated or corpus program (hole chosen on CPython's tree) and the result is compared with ast.parse of the same program with the generator-computed translation written out; span of the construct's node checked separately",
         text="Exploration: (context, hole, construct) triples incl. nested constructs, f-string fields and Store targets; tree equality without positions plus exact span of the construct's node. Histogram of construct kind x parent field in the evidence. Held except listed finding D43 (constructs as attribute/subscript bases inside for/with/comprehension targets).",
